@@ -882,7 +882,13 @@ func (b *Builder) callTermAt(v ssa.Value, c *ssa.CallCommon, at ssa.Instruction,
 		return &Term{Op: strings.TrimPrefix(name, "builtin."), V: v, Args: args}
 	}
 	if name == "dynamic" {
-		args = append([]*Term{b.of(c.Value, at, depth+1)}, args...)
+		fv := b.of(c.Value, at, depth+1)
+		if fv.Op == "func" && fv.Name != "" && len(fv.Args) == 0 {
+			// a function-typed parameter bound to a named function at the call site under analysis
+			name = fv.Name
+		} else {
+			args = append([]*Term{fv}, args...)
+		}
 	}
 	if name == "builtin.append" && len(args) == 2 && (typeName(v.Type()) == "[]byte" || typeName(v.Type()) == "[]uint8") {
 		// the value of append(a, b...) on bytes is the concatenation a ‖ b, however a was built
